@@ -330,6 +330,8 @@ class StmtMixin:
             except RaiseSig as r:
                 for h in node.handlers:
                     if self.handler_matches(h, r.cls):
+                        if fr.fi is not None and fr.fi.qualname == self.target.qualname:
+                            self._touch('handled', fr, node, f"{r.cls}@L{self.ordinal(fr.fi, node, None)}")
                         if h.name:
                             fr.vars[h.name] = VOpaque(r.cls, 'excobj')
                         prev = getattr(fr, 'handling', None)
